@@ -103,9 +103,11 @@ def summaries(cfg, max_paths=400, max_expr=600):
                 targets = s.targets if isinstance(s, ast.Assign) else [s.target]
                 env2 = dict(env)
                 val = _subst(s.value, env)
+                container = isinstance(s.value, (ast.List, ast.Dict, ast.Set)) or (isinstance(s.value, ast.Call) and isinstance(s.value.func, ast.Name) and s.value.func.id in ("list", "dict", "set", "bytearray", "BytesIO", "StringIO") and not s.value.args)
                 for t in targets:
                     if isinstance(t, ast.Name):
-                        env2[t.id] = val if len(norm(val)) <= max_expr else None
+                        # a fresh container keeps its name (it is mutated in place later); other values are propagated
+                        env2[t.id] = None if container else (val if len(norm(val)) <= max_expr else None)
                     else:
                         for x in ast.walk(t):
                             if isinstance(x, ast.Name) and isinstance(x.ctx, ast.Store):
@@ -126,7 +128,7 @@ def summaries(cfg, max_paths=400, max_expr=600):
             if lab == "exc":
                 continue
             c = cnt.get(m.id, 0)
-            if c >= 1:
+            if c >= (2 if m.kind in ("iter", "test") else 1):
                 continue
             c2 = dict(cnt)
             c2[m.id] = c + 1
